@@ -26,10 +26,19 @@ REPO_SRCS = ["memory.c", "array.c", "common.c"]
 LEAN_TARGETS = ["Cstl.Mem.Props", "m_mem"]
 IMPORTS = ["Cstl.Mem.Props"]
 
+_C05 = ["reachable_inv", "run_inv", "run_logInv", "counts_exact", "mem_live_iff", "data_live_iff",
+        "destroy_exactly_at_last_owner", "clear_exactly_at_last_owner", "clear_then_free", "release_in_op",
+        "free_at_most_once", "get_same", "lock_iff", "unique_iff", "no_leak", "unique_clear_then_free_once",
+        "step_never_asan"]
+_C20 = ["stray_aborts", "stray_untouched", "overwrite_only", "stamped_preserved", "original_keeps_working",
+        "stamped_never_aborts", "properly_moved_never_abort", "exec_stray", "exec_inv", "run_inv"]
+_C14 = ["run_ainv", "exec_ainv", "at_in_buffer", "at_abort_iff", "slice_abort_iff", "lifetime",
+        "release_sole_external", "alloc_fail_empty", "run_inv", "destroy_exactly_at_last_owner",
+        "free_at_most_once", "no_leak", "step_never_asan"]
 THEOREMS = {
-    "C05": [],
-    "C14": [],
-    "C20": [],
+    "C05": ["Cstl.Mem." + t for t in _C05],
+    "C14": ["Cstl.Mem." + t for t in _C14],
+    "C20": ["Cstl.Mem." + t for t in _C20],
 }
 
 W = 1 << 64
@@ -691,6 +700,35 @@ def canon_state(line):
     return o2 + " | " + " ".join(sorted(d2))
 
 
+def canon_state_sym(names):
+    """canonical state up to renaming of the given (interchangeable) objects: the closure's
+    alphabet applies every operation to every one of them, so one representative per orbit is
+    enough"""
+    names = list(names)
+
+    def f(line):
+        if line.startswith("STOP") or "|" not in line:
+            return line
+        parts = [p.strip() for p in line.split("|")]
+        toks = {} if parts[2] == "-" else dict(t.split("=", 1) for t in parts[2].split())
+        best = None
+        for perm in itertools.permutations(names):
+            ren = dict(zip(perm, names))
+            objs = []
+            for old in perm:
+                if old in toks:
+                    v = toks[old]
+                    # stray markers name objects too
+                    v = re.sub(r"^~([a-z]\d+):", lambda m: "~%s:" % ren.get(m.group(1), m.group(1)), v)
+                    objs.append("%s=%s" % (ren[old], v))
+            objs += ["%s=%s" % (k, v) for k, v in toks.items() if k not in ren]
+            cand = canon_state(" | ".join([parts[0], parts[1], " ".join(objs) if objs else "-", parts[3], parts[4]]))
+            if best is None or cand < best:
+                best = cand
+        return best
+    return f
+
+
 # ---------------------------------------------------------------------------
 # generators
 
@@ -744,6 +782,27 @@ def _boundary_sizes(off, ln, nm):
     return sorted(v for v in vals if 0 <= v < W)
 
 
+# element counts / sizes whose byte count cannot be represented or that no allocator satisfies
+BAD_ALLOCS = [((1 << 62) + 1, 4), (M, M), (M - 23, 1), (M - 24, 1), (M, 1), (1 << 32, 1 << 32),
+              ((1 << 61) + 1, 8), (M // 4, 4), (1 << 40, 1)]
+
+
+def c14_boundary_scripts():
+    """every unrepresentable / unsatisfiable allocation from an empty object, from a whole buffer and
+    from a slice with a non-zero offset, followed by size / data / at / slice / a fresh alloc"""
+    out = []
+    for pre in ([], ["aalloc a0 3 4 -"], ["aalloc a0 3 4 -", "aslice a0 1 3 a0"],
+                ["aset a0 E1 3 4 -", "aslice a0 2 3 a1", "aslice a1 0 1 a0"]):
+        for n_, s_ in BAD_ALLOCS:
+            for plan in ("-", "0", "10"):
+                out.append(pre + ["aalloc a0 %s %s %s" % (sym(n_), sym(s_), plan), "asize a0", "adata a0",
+                                  "aat a0 0", ])
+                out.append(pre + ["aalloc a0 %s %s %s" % (sym(n_), sym(s_), plan), "aslice a0 0 0 a1"])
+                out.append(pre + ["aalloc a0 %s %s %s" % (sym(n_), sym(s_), plan), "aalloc a0 2 4 -", "aat a0 1",
+                                  "aslice a0 1 2 a0", "aat a0 0", "areset a0", "areset a1"])
+    return out
+
+
 def c14_alphabet(na, nm, rich=True):
     A = ["a%d" % i for i in range(na)]
 
@@ -760,17 +819,15 @@ def c14_alphabet(na, nm, rich=True):
         for a in A:
             off, ln, n_ = views.get(a, (0, 0, 0))
             ops += ["aalloc %s %d 4 -" % (a, nm), "aalloc %s %d 4 0" % (a, nm), "aalloc %s %d 4 10" % (a, nm),
-                    "aalloc %s 0 4 -" % a, "aalloc %s 1 0 -" % a,
-                    "aset %s E1 %d 4 -" % (a, nm), "aset %s E1 %d 4 10" % (a, nm),
-                    "areset " + a, "arelease " + a]
+                    "aset %s E1 %d 4 -" % (a, nm), "areset " + a, "arelease " + a]
+            if rich:
+                ops += ["aalloc %s 0 4 -" % a, "aalloc %s 1 0 -" % a, "aset %s E1 %d 4 10" % (a, nm)]
             # products that cannot be represented / that no allocator satisfies
-            for n_sz in (((1 << 62) + 1, 4), (M, 1), (M, M), (M - 23, 1), (M - 24, 1), (1 << 32, 1 << 32),
-                         ((1 << 61) + 1, 8), (M // 4, 4), (1 << 40, 1)):
+            for n_sz in (BAD_ALLOCS[:4] if rich else BAD_ALLOCS[:2]):
                 ops.append("aalloc %s %s %s -" % (a, sym(n_sz[0]), sym(n_sz[1])))
             if rich:
                 ops += ["asize " + a, "adata " + a]
-                for i in sorted(set([0, 1, ln - 1 if ln else 0, ln, ln + 1, nm, M, M - 1, 1 << 63,
-                                     (W - off) % W, (W - off + 1) % W])):
+                for i in sorted(set([0, ln - 1 if ln else 0, ln, nm, M, (W - off) % W])):
                     ops.append("aat %s %s" % (a, sym(i)))
             room = max(n_ - off, 0)
             good = [(b_, e_) for e_ in range(room + 1) for b_ in range(e_ + 1)] if n_ or views.get(a) else []
@@ -964,8 +1021,8 @@ def random_scripts(rng, count, length, mode, ns=8, nw=4, nu=4, na=4, ng=2, stray
                                      "gswap %s %s" % (g, h), "ginit " + g])
                 else:
                     a, b = rng.choice(A), rng.choice(A)
-                    off, ln = ref.view.get(a, (0, 0))
                     t = ref.tok.get(a)
+                    off, ln = ref.view.get(a, (0, 0)) if t else (0, 0)
                     nm = t.array["nm"] if t else 0
                     bs = _boundary_sizes(off, ln, nm)
                     r = rng.random()
@@ -1011,3 +1068,25 @@ def random_scripts(rng, count, length, mode, ns=8, nw=4, nu=4, na=4, ng=2, stray
                 break
         scripts.append(sc)
     return scripts
+
+
+# ---------------------------------------------------------------------------
+# C16 (allocation failure): templates for tools/props/C16.py
+
+
+def c16_templates(tier):
+    """fault-enumeration templates (see tools/props/C16.py): shared alloc makes two
+    requests (data block, bookkeeping block), unique alloc one, array alloc two"""
+    SA = lambda s, sz: ("salloc %s %d 1 {}" % (s, sz), 2)
+    UA = lambda u, sz: ("ualloc %s %d 1 7 {}" % (u, sz), 1)
+    AA = lambda a, nm: ("aalloc %s %d 4 {}" % (a, nm), 2)
+    t1 = [SA("s0", 8), "sget s0", "sunique s0", "sshare s0 s1", "wfrom w0 s0", SA("s0", 16), "sget s0", "sget s1",
+          "wlock w0 s2", "sreset s1", "sreset s2", "wlock w0 s2", "wreset w0", SA("s1", 8), "sswap s0 s1",
+          "sreset s0", "sreset s1", "sreset s2"]
+    t2 = [UA("u0", 8), "uget u0", UA("u0", 16), "uget u0", "uswap u0 u1", UA("u0", 4), "ureset u0", "urelease u1",
+          UA("u1", 8), "ureset u1", "ureset u0"]
+    t3 = [AA("a0", 4), "asize a0", "aat a0 3", "aslice a0 1 3 a1", AA("a0", 2), "asize a0", "aat a1 1", "aat a0 1",
+          AA("a1", 3), "asize a1", "aslice a1 0 2 a1", AA("a1", 1), "aat a1 0", "areset a0", "areset a1"]
+    thms = ["Cstl.Mem.run_inv", "Cstl.Mem.no_leak", "Cstl.Mem.free_at_most_once", "Cstl.Mem.step_never_asan",
+            "Cstl.Mem.alloc_fail_empty", "Cstl.Mem.run_ainv"]
+    return [t1, t2, t3], (lambda sc: "C14" if any(op.split()[0].startswith("a") for op in sc) else "C05"), thms
